@@ -158,3 +158,65 @@ func VerifNewArrivalWindow(bootstrap time.Duration, sampleSize int) *arrivalWind
 func VerifNewFailureDetector(bootstrap time.Duration, sampleSize int) *accrualFailureDetector {
 	return newAccrualFailureDetector(bootstrap, sampleSize)
 }
+
+// ---- codec helpers (C13) ----
+
+// VerifDeltaItemSizes returns the encoded size of the packet header followed by
+// the size of every item (node header, entry, entry, ..., node header, ...) of
+// the delta, each encoded on its own with the real codec.
+func VerifDeltaItemSizes(id, addr string, d delta) (header int, items []int) {
+	var buf bytes.Buffer
+	buf.WriteByte(byte(messageTypeDelta))
+	buf.WriteByte(supportedVersion)
+	_ = newEncoder(&buf).Encode(&deltaHeader{NodeID: id, Addr: addr})
+	header = buf.Len()
+	for _, de := range d {
+		var b bytes.Buffer
+		_ = newEncoder(&b).Encode(&deltaHeader{NodeID: de.ID, Addr: de.Addr, Entries: len(de.Entries)})
+		items = append(items, b.Len())
+		for _, e := range de.Entries {
+			var b bytes.Buffer
+			_ = newEncoder(&b).Encode(e)
+			items = append(items, b.Len())
+		}
+	}
+	return header, items
+}
+
+// VerifDigestItemSizes is the same for a digest packet.
+func VerifDigestItemSizes(id, addr string, request bool, d digest) (header int, items []int) {
+	var buf bytes.Buffer
+	buf.WriteByte(byte(messageTypeDigest))
+	buf.WriteByte(supportedVersion)
+	_ = newEncoder(&buf).Encode(&digestHeader{NodeID: id, Addr: addr, Request: request})
+	header = buf.Len()
+	for _, e := range d {
+		var b bytes.Buffer
+		_ = newEncoder(&b).Encode(&e)
+		items = append(items, b.Len())
+	}
+	return header, items
+}
+
+// ---- stream message builders (C13 hostile input) ----
+
+func VerifEncodeJoin(id, addr string, d delta, dg digest) []byte {
+	var req bytes.Buffer
+	req.WriteByte(byte(messageTypeJoin))
+	req.WriteByte(supportedVersion)
+	enc := newEncoder(&req)
+	_ = enc.Encode(&joinHeader{NodeID: id, Addr: addr})
+	_ = enc.Encode(d)
+	_ = enc.Encode(dg)
+	return req.Bytes()
+}
+
+func VerifEncodeLeave(id, addr string, d delta) []byte {
+	var req bytes.Buffer
+	req.WriteByte(byte(messageTypeLeave))
+	req.WriteByte(supportedVersion)
+	enc := newEncoder(&req)
+	_ = enc.Encode(&leaveHeader{NodeID: id, Addr: addr})
+	_ = enc.Encode(d)
+	return req.Bytes()
+}
